@@ -8,6 +8,7 @@ refactorings) must leave it at exit 0.  A mutant whose locator no longer matches
 'stale' (reported; > 1/3 stale => ANALYSIS-ERROR).
 """
 import concurrent.futures
+import json
 import os
 import shutil
 import subprocess
@@ -33,7 +34,13 @@ def _run_one(m, base):
     d = tempfile.mkdtemp(prefix="isoqlint_mut_", dir=base)
     try:
         _copy_tree(d)
-        edits = m.get("edits") or [(m["file"], m["find"], m["replace"])]
+        if m.get("patch"):
+            r = subprocess.run(["git", "apply", "--unsafe-paths", "--directory=" + d, m["patch"]], cwd=d, capture_output=True, text=True)
+            if r.returncode != 0:
+                r = subprocess.run(["patch", "-p1", "-s", "-i", m["patch"]], cwd=d, capture_output=True, text=True)
+                if r.returncode != 0:
+                    return m, "stale", "seeded patch no longer applies: " + (r.stdout + r.stderr)[-200:]
+        edits = [] if m.get("patch") else (m.get("edits") or [(m["file"], m["find"], m["replace"])])
         for rel, find, repl in edits:
             p = os.path.join(d, rel)
             with open(p) as fh:
@@ -72,8 +79,29 @@ def _run_one(m, base):
         shutil.rmtree(d, ignore_errors=True)
 
 
+def seeded_mutants(prop):
+    """Independent seeded changes (sub-agents) that this property's check is recorded to catch: kept as regression corpus."""
+    out = []
+    base = os.path.join(VERIF, "seeded")
+    if not os.path.isdir(base):
+        return out
+    for d in sorted(os.listdir(base)):
+        mp = os.path.join(base, d, "meta.json")
+        if not os.path.exists(mp):
+            continue
+        try:
+            meta = json.load(open(mp))
+        except Exception:
+            continue
+        if meta.get("property") == prop and meta.get("caught_by_own_property_check"):
+            rules = (meta.get("checks_that_fire", {}).get(prop, {}) or {}).get("rules") or [None]
+            out.append(dict(id="seed-" + d, prop=prop, expect="fire", rule=None, note="independent seeded change " + d,
+                            patch=os.path.join(base, d, "patch.diff"), file=None, find=None, replace=None, mentions=None, edits=None))
+    return out
+
+
 def run_for(prop, ctx, jobs=16):
-    ms = [m for m in MUTANTS if m["prop"] == prop]
+    ms = [m for m in MUTANTS if m["prop"] == prop] + seeded_mutants(prop)
     if not ms:
         ctx.note("self-validation: no mutants registered for %s" % prop)
         return
